@@ -119,21 +119,21 @@ theorem sameDir_iff_head (a : DatasetArgs) (u : PPath) (us : List PPath) (h : pa
 
 theorem prepare_no_translate (ds : Dataset) (q : QueryFacts) (h : q.translates = false) :
     prepare ds q = ([], .error .translate) := by
-  unfold prepare; simp [h]
+  unfold prepare prepareT; simp [h]
 
 theorem prepare_same (ds : Dataset) (q : QueryFacts) (u : PPath) (us : List PPath)
     (ht : q.translates = true) (hf : ds.files = u :: us) (hs : ∀ v ∈ u :: us, v.parent = u.parent) :
     prepare ds q = ([.package ds.row.fileNames, .filelist (fileLines (u :: us))], .ok (mkCall ds q u.parent)) := by
-  unfold prepare
+  unfold prepare prepareT
   simp only [ht, hf, walkFiles_same u.parent (u :: us) hs]
-  simp
+  simp [mkCall]
 
 theorem prepare_diff (ds : Dataset) (q : QueryFacts) (u : PPath) (us : List PPath)
     (ht : q.translates = true) (hf : ds.files = u :: us) (hs : ¬ ∀ v ∈ u :: us, v.parent = u.parent) :
     ∃ ls, prepare ds q = ([.package ds.row.fileNames, .filelist ls], .error .differentDirs) := by
   obtain ⟨ls, hls⟩ := walkFiles_diff u.parent (u :: us) hs
   refine ⟨ls, ?_⟩
-  unfold prepare
+  unfold prepare prepareT
   simp only [ht, hf, hls]
   simp
 
@@ -195,12 +195,14 @@ inductive Shape (a : DatasetArgs) (q : QueryFacts) (fs : FsFacts) (o : Outcome) 
 
 theorem body_of_prepare_error (ds : Dataset) (q : QueryFacts) (fs : FsFacts) (o : Outcome) (evs : List Ev) (e : Err)
     (h : prepare ds q = (evs, .error e)) : body ds q fs o = (evs, .error e) := by
-  unfold body; simp [h]
+  unfold prepare at h
+  unfold body bodyT; simp [h]
 
 theorem body_of_prepare_ok (ds : Dataset) (q : QueryFacts) (fs : FsFacts) (o : Outcome) (evs : List Ev) (c : DockerCall)
     (h : prepare ds q = (evs, .ok c)) :
     ∃ tl r, Tail ds fs o tl r ∧ body ds q fs o = (evs ++ .run c :: tl, r) := by
-  unfold body
+  unfold prepare at h
+  unfold body bodyT
   simp only [h]
   cases hr : runContainer o with
   | mk n res =>
